@@ -42,6 +42,8 @@ structure St where
   hasBody : Bool          -- request created with a body pipe
   buf : Nat := 0          -- unread bytes in the body pipe
   eof : Bool := false     -- FIN seen: pipe closed with io.EOF
+  decl : Option Nat := none  -- declBodyBytes (none = -1: no Content-Length)
+  got : Nat := 0          -- bodyBytes
   deriving Repr, DecidableEq
 
 inductive Cmd
@@ -72,7 +74,8 @@ structure State where
   deriving Repr
 
 inductive Ev
-  | syn (id : Nat) (fin : Bool)
+  | syn (id : Nat) (fin : Bool) (meth : Nat := 0) (cl : Nat := 0)
+      -- meth: 0 POST, 1 GET, 2 HEAD;  cl: 0 no Content-Length, 1 "abc", 2 "-5", k+10 = the number k
   | data (id len : Nat) (fin : Bool)
   | wu (id delta : Nat)
   | rst (id status : Nat)
@@ -152,37 +155,63 @@ def growAll : List St → Int → Option (List St)
       | _, _ => none
     else (growAll t g).map (st :: ·)
 
+/-- "sender tried to send more than declared Content-Length" -/
+def overDecl (st : St) (len : Nat) : Bool :=
+  match st.decl with
+  | some d => decide (st.got + len > d)
+  | none => false
+
+/-- END_STREAM with a body shorter than the declared Content-Length -/
+def shortDecl (st : St) (len : Nat) (fin : Bool) : Bool :=
+  fin && (match st.decl with
+    | some d => decide (d ≠ st.got + len)
+    | none => false)
+
 /-- one client frame / handler command processed by the serve loop -/
 def step (s0 : State) (e : Ev) : Res :=
   let s := { s0 with kick := false }
   match e with
-  | .syn id fin =>
+  | .syn id fin meth cl =>
     if id = 0 then { st := s }          -- the client's own writer refuses stream id 0: nothing is sent
     else if id % 2 ≠ 1 ∨ id < s.maxId then goAway s 1
     else if id = s.maxId then reset s id 1
     else
-      let st : St := { id, isOpen := !fin, flow := (flowAdd 0 s.iws).getD 0, hasBody := !fin }
-      let s' := { s with maxId := id, streams := s.streams ++ [st], handlers := s.handlers ++ [{ id }],
+      -- newWriterAndRequest: HEAD with an open body, or an unparsable / negative Content-Length -> PROTOCOL_ERROR
+      let bad : Bool := !fin && (meth == 2 || cl == 1 || cl == 2)
+      let st : St := { id, isOpen := !fin, flow := (flowAdd 0 s.iws).getD 0, hasBody := !fin,
+                       decl := if !fin ∧ cl ≥ 10 then some (cl - 10) else none }
+      let s' := { s with maxId := id, streams := s.streams ++ [st],
+                         handlers := if bad then s.handlers else s.handlers ++ [{ id }],
                          cur := s.cur + 1, opened := s.opened ++ [id] }
-      if s'.cur > s'.adv then { st := s', status := .closed } else { st := s' }
+      if s'.cur > s'.adv then { st := s', status := .closed }
+      else if bad then reset s' id 1
+      else { st := s' }
   | .data id len fin =>
     if id = 0 then { st := s } else
     match find s id with
     | none => reset s id 2
     | some st =>
       if !st.isOpen then reset s id 9
-      else if len > 0 then
-        if available st.inflow s.connIn < len then reset s id 7
-        else match flowTake st.inflow s.connIn len with
-          | none => { st := s, status := .panic }
-          | some (_, c) =>
-            -- (`st.inflow.take`: the stream's own window is debited; the guard is true for the stream found)
-            { st := updSt { s with connIn := c } id fun x =>
-                if (len : Int) ≤ x.inflow then
-                  { x with inflow := wrap32 (x.inflow - len), buf := x.buf + len, isOpen := x.isOpen && !fin,
-                           eof := x.eof || fin }
-                else x }
-      else { st := updSt s id fun x => { x with isOpen := x.isOpen && !fin, eof := x.eof || fin } }
+      -- "sender tried to send more than declared Content-Length" (checked before flow control)
+      else if overDecl st len then reset s id 1
+      else
+        -- END_STREAM with fewer bytes than declared: the frame is accepted first, then the stream is reset
+        let short : Bool := shortDecl st len fin
+        if len > 0 then
+          if available st.inflow s.connIn < len then reset s id 7
+          else match flowTake st.inflow s.connIn len with
+            | none => { st := s, status := .panic }
+            | some (_, c) =>
+              -- (`st.inflow.take`: the stream's own window is debited; the guard is true for the stream found)
+              let s2 := updSt { s with connIn := c } id fun x =>
+                  if (len : Int) ≤ x.inflow then
+                    { x with inflow := wrap32 (x.inflow - len), buf := x.buf + len, isOpen := x.isOpen && !fin,
+                             eof := x.eof || fin, got := x.got + len }
+                  else x
+              if short then reset s2 id 1 else { st := s2 }
+        else
+          let s2 := updSt s id fun x => { x with isOpen := x.isOpen && !fin, eof := x.eof || fin }
+          if short then reset s2 id 1 else { st := s2 }
   | .wu id delta =>
     let d : Int := (delta % 2147483648 : Nat)
     if id ≠ 0 then
